@@ -242,11 +242,13 @@ func (s Search) Run() (bool, []*ssa.BasicBlock) {
 	}
 	pathTo := func(b *ssa.BasicBlock) []*ssa.BasicBlock {
 		var p []*ssa.BasicBlock
-		for x := b; x != nil; x = parent[x] {
+		seen := map[*ssa.BasicBlock]bool{}
+		for x := b; x != nil && !seen[x]; x = parent[x] {
+			seen[x] = true
 			p = append([]*ssa.BasicBlock{x}, p...)
-			if x == st.b && parent[x] == nil {
-				break
-			}
+		}
+		if len(p) == 0 || p[0] != st.b {
+			p = append([]*ssa.BasicBlock{st.b}, p...)
 		}
 		return p
 	}
